@@ -1,6 +1,12 @@
 from props import KERNEL_TB, HARNESS_TB
 
 _TB = [KERNEL_TB, HARNESS_TB,
+       "extract/guards/entry.go: the inventory of entry points is found by NAME conventions of the source tree (the `MsgServer` "
+       "interfaces of x/*/types/*.pb.go, functions returning govtypes.Handler in x/*/handler.go, govRouter.AddRoute / SetUpgradeHandler in "
+       "app/app.go, `comdexMsg.X != nil` arms of DispatchMsg, IBCModule.On*, BeginBlocker/EndBlocker of x/*/abci.go, cfg.RegisterMigration, "
+       "CreateUpgradeHandler* under app/upgrades); an entry point wired in another way is not seen (the dynamic run routes through the real "
+       "msg-service router / gov message server / DispatchMsg, so a mis-named one shows as a BAD line); cosmos-sdk's gov message server "
+       "(authority test of MsgExecLegacyContent) and IBC core are exercised, not modelled",
        "extract/guards (go/ast, no type checking) flattens every MsgServer method into guards / writes / position reads / ok-exits, "
        "inlining keeper functions whose error the caller propagates; its flattening rules are trusted (notes/C12.md lists them); "
        "position reads hidden in helper functions that return no error are not followed (the dynamic matrix is the complement)",
@@ -20,14 +26,21 @@ PROP = dict(
                        "Comdex.C12.consistency_rows_pinned",
                        "Comdex.C12.wasm_guards_expected", "Comdex.C12.wasm_authorized_iff_designated",
                        "Comdex.C12.admin_only_killswitch", "Comdex.C12.admin_guard_blocks",
-                       "Comdex.C12.table_sizes", "Comdex.C12.handler_names_pinned", "Comdex.C12.every_handler_has_exit"],
+                       "Comdex.C12.table_sizes", "Comdex.C12.handler_names_pinned", "Comdex.C12.every_handler_has_exit",
+                       "Comdex.C12.entry_points_classified", "Comdex.C12.entry_point_counts", "Comdex.C12.msg_entry_points_complete",
+                       "Comdex.C12.position_naming_entry_points_guarded", "Comdex.C12.nonmsg_position_readers_pinned",
+                       "Comdex.C12.privileged_entry_points_guarded", "Comdex.C12.privileged_entry_points_pinned",
+                       "Comdex.C12.proposals_pinned", "Comdex.C12.unwired_entry_points_pinned", "Comdex.C12.ibc_callbacks_pinned",
+                       "Comdex.C12.privileged_targets_reach_pinned", "Comdex.C12.gov_only_blocks", "Comdex.C12.spot_entry_points"],
     harness_tests=["TestC12"],
     trusted_base=_TB,
     assumptions=["a position is named by the ids carried in the message; signer = the address in the message's GetSigners field "
                  "(signature verification itself is the ante handler's job and is not part of this property)",
                  "on chain ids other than comdex-1 / comdex-test3 the custom wasm handlers accept any contract (development networks): "
                  "the property text restricts only the main and test networks"],
-    rule="each case is one real message (or custom wasm dispatch) delivered on a fresh branch of a populated app: position kind x message "
+    monitors=["owner_only", "rejected_no_change", "admin_only", "wasm_guard", "position_consistent", "privileged_only", "precondition_enforced",
+              "breaker_closed", "esm_closed", "cooloff", "cooloff_closed", "price_fail_closed", "sweep_skips", "snapshot_only_from_active"],
+    rule="each case is one real message (or custom wasm dispatch, or proposal content inside MsgExecLegacyContent / MsgSubmitProposal, or IBC callback) delivered on a fresh branch of a populated app: position kind x message "
          "type x signer (owner / two strangers / another position's owner) resp. custom variant x sender x chain id; distinct = distinct "
          "trace text, non-trivial = the owner's / designated contract's own message succeeded",
 )
@@ -38,10 +51,15 @@ META = dict(
     design_ref="DESIGN.md §5 C12",
     text="Kernel-checked: in the execution model (guards and writes in sequence, first failing guard returns, message cache) an owner "
          "/ admin guard anywhere on the way makes a non-owner's delivery fail with the state unchanged. Over the table regenerated from "
-         "/repo on every run: every one of the 62 MsgServer methods of vault, locker, lend, liquidity, auctionsV2, esm, liquidation, "
-         "liquidationsV2, auction that reads a position not keyed by the signer executes the owner comparison on every route to success (11 "
+         "/repo on every run: every one of the 70 MsgServer methods of ALL comdex modules (= the methods of the protobuf MsgServer "
+         "interfaces) that reads a position not keyed by the signer executes the owner comparison on every route to success (11 "
          "reviewed ownerless handlers listed and justified in Props/C12.lean); all 20 custom wasm handlers carry exactly the expected "
-         "chain-id/contract guard; the kill switch is admin-only before any write. The harness delivers every position-naming message "
+         "chain-id/contract guard; the kill switch is admin-only before any write. Inventory of 164 entry points (70 messages, 26 governance "
+         "proposal contents, 20 wasm variants, 9 IBC callbacks, 13 block hooks, 3 migrations, 23 upgrade handlers): each is classified by who "
+         "may call it, every position-naming one is owner-guarded or reviewed, each of the 47 privileged ones has its authority guard before "
+         "its first write (admin test / gov router as the only caller of the keeper function / contract comparison first), the 71 keeper "
+         "functions behind them are reachable from no message handler except two reviewed fee-paying ones. The harness executes every "
+         "proposal content through the real gov message server with non-gov authorities, and delivers every position-naming message "
          "with non-owner signers and every custom message with wrong senders on the real app and requires error + empty store/bank diff.",
     note="Trusted: Lean kernel, the extractor's flattening rules, baseapp's message cache (modelled), the harness generators.",
 )
